@@ -60,7 +60,7 @@ def run(ctx):
                 k = l.split(" ")[1] + ":" + impl.split(";")[1]
                 kinds[k] = kinds.get(k, 0) + 1
         ctx.coverage["outcomes"] = kinds
-    ctx.coverage["rule"] = ("per path (Dialer, Transport) × advertised SaslHandshake range (0-1, 0-0, not listed, 1-1, 0-5) × mechanism (PLAIN, SCRAM-SHA-256/512, "
+    ctx.coverage["rule"] = ("per path (Dialer, Transport) × independently advertised SaslHandshake {absent,0-0,0-1} × SaslAuthenticate {absent,0-0,0-1,0-2} ranges (+1-1, 0-5, 0–-1) × mechanism (PLAIN, SCRAM-SHA-256/512, "
                             "scripted n-round): successful exchange followed by a normal request; failure placed at ApiVersions / handshake / auth round 1..3 as error code, "
                             "close, wrong correlation id, truncated frame; mechanism failure at Start / Next i; credential table (right/wrong, ',' '=' escapes, SASLprep examples "
                             "of RFC 4013, random strings) against xdg-go/scram's server and an independent stdlib server, bad credentials reported as error code or as e= challenge. "
